@@ -290,14 +290,19 @@ func (o *offsetDB) save(jobs map[pipeline.SourceID]*Job, mu *sync.RWMutex) {
 		job.mu.Unlock()
 	}
 
+	// the temp file replaces the current one only if it was completely written and synced
 	_, err = file.Write(o.buf)
 	if err != nil {
 		logger.Errorf("can't write offsets file %s, %s", o.tmpOffsetsFile, err.Error())
+		_ = os.Remove(string(tmpWithRandom))
+		return
 	}
 
 	err = file.Sync()
 	if err != nil {
 		logger.Errorf("can't sync offsets file %s, %s", o.tmpOffsetsFile, err.Error())
+		_ = os.Remove(string(tmpWithRandom))
+		return
 	}
 
 	err = os.Rename(string(tmpWithRandom), o.curOffsetsFile)
